@@ -170,7 +170,13 @@ mod int {
 
     pub(crate) fn rem(dividend: VmInt, divisor: VmInt) -> RuntimeResult<VmInt, String> {
         if divisor != 0 {
-            RuntimeResult::Return(dividend % divisor)
+            match dividend.checked_rem(divisor) {
+                Some(result) => RuntimeResult::Return(result),
+                None => RuntimeResult::Panic(format!(
+                    "attempted to calculate the remainder of {} divided by {} with overflow",
+                    dividend, divisor
+                )),
+            }
         } else {
             RuntimeResult::Panic(format!(
                 "attempted to calculate remainder of {} divided by 0",
@@ -181,7 +187,13 @@ mod int {
 
     pub(crate) fn rem_euclid(dividend: VmInt, divisor: VmInt) -> RuntimeResult<VmInt, String> {
         if divisor != 0 {
-            RuntimeResult::Return(dividend.rem_euclid(divisor))
+            match dividend.checked_rem_euclid(divisor) {
+                Some(result) => RuntimeResult::Return(result),
+                None => RuntimeResult::Panic(format!(
+                    "attempted to calculate the euclidean remainder of {} divided by {} with overflow",
+                    dividend, divisor
+                )),
+            }
         } else {
             RuntimeResult::Panic(format!(
                 "attempted to calculate euclidean remainder of {} divided by 0",
@@ -226,6 +238,44 @@ mod int {
                 "attempted to calculate overflowing remainder of {} divided by 0",
                 dividend
             ))
+        }
+    }
+
+    pub(crate) fn wrapping_div(dividend: VmInt, divisor: VmInt) -> RuntimeResult<VmInt, String> {
+        if divisor != 0 {
+            RuntimeResult::Return(dividend.wrapping_div(divisor))
+        } else {
+            RuntimeResult::Panic(format!("attempted to divide {} by 0", dividend))
+        }
+    }
+
+    pub(crate) fn overflowing_div(
+        dividend: VmInt,
+        divisor: VmInt,
+    ) -> RuntimeResult<(VmInt, bool), String> {
+        if divisor != 0 {
+            RuntimeResult::Return(dividend.overflowing_div(divisor))
+        } else {
+            RuntimeResult::Panic(format!("attempted to divide {} by 0", dividend))
+        }
+    }
+
+    pub(crate) fn byte_wrapping_div(dividend: u8, divisor: u8) -> RuntimeResult<u8, String> {
+        if divisor != 0 {
+            RuntimeResult::Return(dividend.wrapping_div(divisor))
+        } else {
+            RuntimeResult::Panic(format!("attempted to divide {} by 0", dividend))
+        }
+    }
+
+    pub(crate) fn byte_overflowing_div(
+        dividend: u8,
+        divisor: u8,
+    ) -> RuntimeResult<(u8, bool), String> {
+        if divisor != 0 {
+            RuntimeResult::Return(dividend.overflowing_div(divisor))
+        } else {
+            RuntimeResult::Panic(format!("attempted to divide {} by 0", dividend))
         }
     }
 
@@ -325,7 +375,7 @@ mod string {
     }
 
     pub fn slice(s: &str, start: usize, end: usize) -> RuntimeResult<&str, String> {
-        if s.is_char_boundary(start) && s.is_char_boundary(end) {
+        if start <= end && s.is_char_boundary(start) && s.is_char_boundary(end) {
             RuntimeResult::Return(&s[start..end])
         } else {
             // Limit the amount of characters to print in the error message
@@ -425,8 +475,6 @@ mod std {
                 BitAnd::bitand,
                 BitOr::bitor,
                 BitXor::bitxor,
-                Shl::shl,
-                Shr::shr,
             }
         };
     }
@@ -447,6 +495,14 @@ mod std {
         pub type prim = u8;
 
         bit_const! { u8 }
+
+        // Shifting by the width of the type or more must not overflow (which panics)
+        pub fn shl(l: u8, r: u8) -> u8 {
+            l.wrapping_shl(r as u32)
+        }
+        pub fn shr(l: u8, r: u8) -> u8 {
+            l.wrapping_shr(r as u32)
+        }
     }
     pub mod int {
         use crate::types::VmInt;
@@ -455,10 +511,16 @@ mod std {
 
         bit_const! { VmInt }
 
-        #[allow(non_upper_case_globals)]
-        pub const arithmetic_shr: fn(l: VmInt, r: VmInt) -> VmInt = shr;
-        #[allow(non_upper_case_globals)]
-        pub const logical_shr: fn(l: u64, r: u64) -> u64 = ::std::ops::Shr::shr;
+        // Shifting by the width of the type or more must not overflow (which panics)
+        pub fn shl(l: VmInt, r: VmInt) -> VmInt {
+            l.wrapping_shl(r as u32)
+        }
+        pub fn arithmetic_shr(l: VmInt, r: VmInt) -> VmInt {
+            l.wrapping_shr(r as u32)
+        }
+        pub fn logical_shr(l: u64, r: u64) -> u64 {
+            l.wrapping_shr(r as u32)
+        }
     }
     pub mod float {
         pub type prim = f64;
@@ -572,18 +634,18 @@ pub fn load_byte(vm: &Thread) -> Result<ExternModule> {
             from_le => primitive!(1, std::byte::prim::from_le),
             to_be => primitive!(1, std::byte::prim::to_be),
             to_le => primitive!(1, std::byte::prim::to_le),
-            pow => primitive!(2, std::byte::prim::pow),
+            pow => primitive!(2, std::byte::prim::wrapping_pow),
             saturating_add => primitive!(2, std::byte::prim::saturating_add),
             saturating_sub => primitive!(2, std::byte::prim::saturating_sub),
             saturating_mul => primitive!(2, std::byte::prim::saturating_mul),
             wrapping_add => primitive!(2, std::byte::prim::wrapping_add),
             wrapping_sub => primitive!(2, std::byte::prim::wrapping_sub),
             wrapping_mul => primitive!(2, std::byte::prim::wrapping_mul),
-            wrapping_div => primitive!(2, std::byte::prim::wrapping_div),
+            wrapping_div => primitive!(2, "std::byte::prim::wrapping_div", int::byte_wrapping_div),
             overflowing_add => primitive!(2, std::byte::prim::overflowing_add),
             overflowing_sub => primitive!(2, std::byte::prim::overflowing_sub),
             overflowing_mul => primitive!(2, std::byte::prim::overflowing_mul),
-            overflowing_div => primitive!(2, std::byte::prim::overflowing_div),
+            overflowing_div => primitive!(2, "std::byte::prim::overflowing_div", int::byte_overflowing_div),
             from_int => primitive!(1, "std.byte.prim.from_int", |i: VmInt| i as u8),
             parse => primitive!(1, "std.byte.prim.parse", parse::<u8>),
         },
@@ -600,7 +662,13 @@ pub fn load_int(vm: &Thread) -> Result<ExternModule> {
             from_str_radix => primitive!(
                 2,
                 "std.int.prim.from_str_radix",
-                |src, radix| std::int::prim::from_str_radix(src, radix).map_err(|_| ())
+                |src, radix: u32| {
+                    // `from_str_radix` panics on a radix outside of this range
+                    if radix < 2 || radix > 36 {
+                        return Err(());
+                    }
+                    std::int::prim::from_str_radix(src, radix).map_err(|_| ())
+                }
             ),
             shl => primitive!(2, std::int::shl),
             arithmetic_shr => primitive!(2, std::int::arithmetic_shr),
@@ -619,8 +687,8 @@ pub fn load_int(vm: &Thread) -> Result<ExternModule> {
             from_le => primitive!(1, std::int::prim::from_le),
             to_be => primitive!(1, std::int::prim::to_be),
             to_le => primitive!(1, std::int::prim::to_le),
-            pow => primitive!(2, std::int::prim::pow),
-            abs => primitive!(1, std::int::prim::abs),
+            pow => primitive!(2, std::int::prim::wrapping_pow),
+            abs => primitive!(1, "std.int.prim.abs", |i: VmInt| i.wrapping_abs()),
             rem => primitive!(2, "std::int::prim::rem", int::rem),
             rem_euclid => primitive!(2, "std::int::prim::rem_euclid", int::rem_euclid),
             checked_rem => primitive!(2, std::int::prim::checked_rem),
@@ -631,7 +699,7 @@ pub fn load_int(vm: &Thread) -> Result<ExternModule> {
             wrapping_add => primitive!(2, std::int::prim::wrapping_add),
             wrapping_sub => primitive!(2, std::int::prim::wrapping_sub),
             wrapping_mul => primitive!(2, std::int::prim::wrapping_mul),
-            wrapping_div => primitive!(2, std::int::prim::wrapping_div),
+            wrapping_div => primitive!(2, "std::int::prim::wrapping_div", int::wrapping_div),
             wrapping_abs => primitive!(1, std::int::prim::wrapping_abs),
             wrapping_rem => primitive!(2, "std::int::prim::wrapping_rem", int::wrapping_rem),
             wrapping_rem_euclid => primitive!(2, "std::int::prim::wrapping_rem", int::wrapping_rem_euclid),
@@ -639,7 +707,7 @@ pub fn load_int(vm: &Thread) -> Result<ExternModule> {
             overflowing_add => primitive!(2, std::int::prim::overflowing_add),
             overflowing_sub => primitive!(2, std::int::prim::overflowing_sub),
             overflowing_mul => primitive!(2, std::int::prim::overflowing_mul),
-            overflowing_div => primitive!(2, std::int::prim::overflowing_div),
+            overflowing_div => primitive!(2, "std::int::prim::overflowing_div", int::overflowing_div),
             overflowing_abs => primitive!(1, std::int::prim::overflowing_abs),
             overflowing_rem => primitive!(2, "std::int::prim::overflowing_rem", int::overflowing_rem),
             overflowing_rem_euclid => primitive!(2, "std::int::prim::overflowing_rem_euclid", int::overflowing_rem_euclid),
@@ -822,8 +890,9 @@ pub fn load_char(vm: &Thread) -> Result<ExternModule> {
         record! {
             from_int => primitive!(1, "std.char.prim.from_int", ::std::char::from_u32),
             to_int => primitive!(1, "std.char.prim.to_int", |c: char| c as u32),
-            is_digit => primitive!(2, std::char::prim::is_digit),
-            to_digit => primitive!(2, std::char::prim::to_digit),
+            // `char::is_digit` and `char::to_digit` panic on a radix outside of 2..=36
+            is_digit => primitive!(2, "std.char.prim.is_digit", |c: char, radix: u32| (2..=36).contains(&radix) && c.is_digit(radix)),
+            to_digit => primitive!(2, "std.char.prim.to_digit", |c: char, radix: u32| if (2..=36).contains(&radix) { c.to_digit(radix) } else { None }),
             len_utf8 => primitive!(1, std::char::prim::len_utf8),
             len_utf16 => primitive!(1, std::char::prim::len_utf16),
             is_alphabetic => primitive!(1, std::char::prim::is_alphabetic),
